@@ -89,6 +89,23 @@ def main():
         if not no_suite:
             missing, n = suite(wt)
             ran.append("pinned suite with patch: %d of %d stable tests missing" % (len(missing), n))
+            if missing and len(missing) <= 5:
+                # hypothesis-driven tests of the vendored ecdsa package fail at random (also on the pristine tree); re-run just those
+                still = []
+                for t in missing:
+                    tcls, tname = t.split("::")
+                    parts = tcls.split(".")
+                    k = max(i for i, x in enumerate(parts) if x.startswith("test_"))
+                    node = "/".join(parts[:k + 1]) + ".py::" + "::".join(parts[k + 1:] + [tname])
+                    good = 0
+                    for _ in range(3):
+                        sh(["rm", "-rf", os.path.join(wt, ".hypothesis")])
+                        rc3, o3 = sh([PY, "-m", "pytest", "-q", "-p", "no:cacheprovider", "--timeout=900", node], cwd=wt)
+                        good += rc3 == 0
+                    ran.append("re-ran %s three times with patch: %d passes" % (node, good))
+                    if good == 0:
+                        still.append(t)
+                missing = still
             if missing:
                 print("REJECT: suite breaks: %s" % missing[:5])
                 return 1
